@@ -68,6 +68,7 @@ def rank : Item → Nat
   | .append _ => 16
   | .submit _ _ => 16
   | .join => 16
+  | .markUnreg => 16
   | .poll => 16
   | .waitAll => 16
   | .flushOpen .chunk => 16
@@ -94,8 +95,19 @@ def tempOp : Op → Bool
   | .rename .temp _ _ => true
   | _ => false
 
+/-- names an operation may change -/
+def opNames : Op → List Name
+  | .openTrunc _ n => [n]
+  | .write _ n _ => [n]
+  | .rename _ a b => [a, b]
+  | .unlink _ n => [n]
+  | _ => []
+
+/-- the operation leaves the metadata file alone (true of every chunk write of the serial and executor variants) -/
+def mdFree (o : Op) : Bool := !(opNames o).contains .md
+
 def okItem : Item → Bool
-  | .submit _ ops => ops.all tempOp
+  | .submit _ ops => ops.all tempOp && ops.all mdFree
   | x => rank x ≤ 25
 
 /-- rank of the head item; 26 when the program is exhausted -/
@@ -181,10 +193,16 @@ theorem Miles.tail {x : Item} {p : List Item} (hs : Sorted (x :: p)) (hm : Miles
 
 theorem rank_chunkItems {v : Variant} {r : Bool} {i : Nat} {c : Chunk} : ∀ x ∈ chunkItems v r i c, rank x = 16 := by
   intro x hx
-  cases v <;> simp only [chunkItems, flushItems] at hx
-  all_goals
-    split at hx <;> (try split at hx) <;> simp at hx
+  cases v with
+  | forked => simp only [chunkItems, List.mem_singleton] at hx; subst hx; rfl
+  | serial =>
+    simp only [chunkItems, flushItems] at hx
+    split at hx <;> simp at hx
     all_goals (rcases hx with h | h | h | h | h | h | h <;> (try subst h) <;> simp_all [rank])
+  | executor =>
+    simp only [chunkItems, flushItems] at hx
+    split at hx <;> split at hx <;> simp at hx
+    all_goals (rcases hx with h | h | h | h | h | h | h | h <;> (try subst h) <;> simp_all [rank])
 
 
 theorem rank_chunksItems {v : Variant} {r : Bool} : ∀ (cs : List Chunk) (i : Nat), ∀ x ∈ chunksItems v r i cs, rank x = 16 := by
@@ -203,6 +221,11 @@ theorem tempOp_writeOps (i : Nat) (rs : List Row) : ∀ o ∈ writeOps i rs, tem
   simp only [writeOps, List.mem_cons, List.mem_nil_iff, or_false] at ho
   rcases ho with rfl | rfl | rfl | rfl <;> rfl
 
+theorem mdFree_writeOps (i : Nat) (rs : List Row) : ∀ o ∈ writeOps i rs, mdFree o = true := by
+  intro o ho
+  simp only [writeOps, List.mem_cons, List.mem_nil_iff, or_false] at ho
+  rcases ho with rfl | rfl | rfl | rfl <;> simp [mdFree, opNames]
+
 theorem tempOp_forkOps (i : Nat) (c : Chunk) : ∀ o ∈ forkOps i c, tempOp o = true := by
   intro o ho
   simp only [forkOps, List.mem_append] at ho
@@ -217,23 +240,28 @@ theorem tempOp_forkOps (i : Nat) (c : Chunk) : ∀ o ∈ forkOps i c, tempOp o =
       rcases ho with rfl | rfl | rfl <;> rfl
     · simp at ho
 
-theorem ok_chunkItems {v : Variant} {r : Bool} {i : Nat} {c : Chunk} : ∀ x ∈ chunkItems v r i c, okItem x = true := by
+theorem ok_chunkItems {v : Variant} (hv : v ≠ .forked) {r : Bool} {i : Nat} {c : Chunk} :
+    ∀ x ∈ chunkItems v r i c, okItem x = true := by
   intro x hx
   have hr := rank_chunkItems x hx
   cases x with
   | submit j ops =>
-    simp only [okItem, List.all_eq_true]
-    cases v <;> simp only [chunkItems, flushItems] at hx
-    all_goals
-      split at hx <;> (try split at hx) <;> simp at hx
-    all_goals
-      first
-        | (obtain ⟨_, rfl⟩ := hx; first | exact tempOp_writeOps _ _ | exact tempOp_forkOps _ _)
-        | skip
+    simp only [okItem, Bool.and_eq_true, List.all_eq_true]
+    cases v with
+    | forked => exact absurd rfl hv
+    | serial =>
+      simp only [chunkItems, flushItems] at hx
+      split at hx <;> simp at hx
+      obtain ⟨_, rfl⟩ := hx
+      exact ⟨tempOp_writeOps _ _, mdFree_writeOps _ _⟩
+    | executor =>
+      simp only [chunkItems, flushItems] at hx
+      split at hx <;> split at hx <;> simp at hx
+      all_goals (obtain ⟨_, rfl⟩ := hx; exact ⟨tempOp_writeOps _ _, mdFree_writeOps _ _⟩)
   | _ => simp_all [okItem]
 
-
-theorem ok_chunksItems {v : Variant} {r : Bool} : ∀ (cs : List Chunk) (i : Nat), ∀ x ∈ chunksItems v r i cs, okItem x = true := by
+theorem ok_chunksItems {v : Variant} (hv : v ≠ .forked) {r : Bool} :
+    ∀ (cs : List Chunk) (i : Nat), ∀ x ∈ chunksItems v r i cs, okItem x = true := by
   intro cs
   induction cs with
   | nil => intro i x hx; simp [chunksItems] at hx
@@ -241,7 +269,7 @@ theorem ok_chunksItems {v : Variant} {r : Bool} : ∀ (cs : List Chunk) (i : Nat
     intro i x hx
     simp only [chunksItems, List.mem_append] at hx
     rcases hx with hx | hx
-    · exact ok_chunkItems x hx
+    · exact ok_chunkItems hv x hx
     · exact ih _ x hx
 
 /-- the three shape properties together -/
@@ -289,12 +317,12 @@ theorem shape_mid_close {mid : List Item} (hr16 : ∀ x ∈ mid, rank x = 16) (h
       | (simp [rank] at hle; omega)
       | (apply List.mem_append_right; simp [closeItems, flushItems])
 
-theorem shape_handlerItems (h : HandlerSpec) : Shape (handlerItems h) :=
-  shape_mid_close (rank_chunksItems _ _) (ok_chunksItems _ _)
+theorem shape_handlerItems (h : HandlerSpec) (hv : h.variant ≠ .forked) : Shape (handlerItems h) :=
+  shape_mid_close (rank_chunksItems _ _) (ok_chunksItems hv _ _)
 
 /-- chunk phase of the main program -/
 def mainItems (v : Variant) (cs : List Chunk) : List Item :=
-  chunksItems v true 0 cs ++ (if v != .serial then [.waitAll] else [])
+  chunksItems v true 0 cs ++ (if v == .executor then [.waitAll] else [])
 
 theorem rank_mainItems {v : Variant} {cs : List Chunk} : ∀ x ∈ mainItems v cs, rank x = 16 := by
   intro x hx
@@ -304,21 +332,21 @@ theorem rank_mainItems {v : Variant} {cs : List Chunk} : ∀ x ∈ mainItems v c
   · split at hx <;> simp at hx
     subst hx; rfl
 
-theorem ok_mainItems {v : Variant} {cs : List Chunk} : ∀ x ∈ mainItems v cs, okItem x = true := by
+theorem ok_mainItems {v : Variant} (hv : v ≠ .forked) {cs : List Chunk} : ∀ x ∈ mainItems v cs, okItem x = true := by
   intro x hx
   have hr := rank_mainItems x hx
   simp only [mainItems, List.mem_append] at hx
   rcases hx with hx | hx
-  · exact ok_chunksItems _ _ x hx
+  · exact ok_chunksItems hv _ _ x hx
   · split at hx <;> simp at hx
     subst hx; rfl
 
 theorem saverProg_eq (v : Variant) (cs : List Chunk) : saverProg v {} cs = initItems ++ (mainItems v cs ++ closeItems) := by
   simp [saverProg, mainItems, List.append_assoc]
 
-theorem shape_saverProg (v : Variant) (cs : List Chunk) : Shape (saverProg v {} cs) := by
+theorem shape_saverProg (v : Variant) (hv : v ≠ .forked) (cs : List Chunk) : Shape (saverProg v {} cs) := by
   rw [saverProg_eq]
-  have hmc := shape_mid_close (mid := mainItems v cs) rank_mainItems ok_mainItems
+  have hmc := shape_mid_close (mid := mainItems v cs) rank_mainItems (ok_mainItems hv)
   have hin : ∀ x ∈ initItems, rank x ≤ 15 ∧ okItem x = true := by
     intro x hx
     simp only [initItems, flushItems, List.cons_append, List.nil_append, List.mem_cons, List.mem_nil_iff, or_false] at hx
